@@ -4,9 +4,19 @@ set -e
 cd "$(dirname "$0")"
 export CARGO_NET_OFFLINE=true
 ( cd harness && cargo build --release --offline --workspace 2>&1 | tail -3 )
+log=$(mktemp)
+scratch=$(mktemp -d)
+trap 'rm -rf "$log" "$scratch"' EXIT
 for f in specs/*/*.tla; do
   d=$(dirname "$f")
-  ( cd "$d" && java -cp /opt/veriftools/tla/tla2tools.jar:/opt/veriftools/tla/CommunityModules-deps.jar -DTLA-Library=../lib tla2sany.SANY "$(basename "$f")" >/tmp/sany.$$ 2>&1 ) || { cat /tmp/sany.$$; echo "SANY failed: $f"; rm -f /tmp/sany.$$; exit 1; }
+  b=$(basename "$f")
+  if grep -Eq '^EXTENDS.*[ ,]Apalache([ ,]|$)' "$f"; then
+    # Typed modules for the Apalache runs of the thorough tier: the `Apalache` module
+    # ships inside apalache.jar, not on SANY's library path, so Apalache's own
+    # front end (which embeds SANY) parses them.
+    ( cd "$d" && apalache-mc parse --out-dir="$scratch" "$b" >"$log" 2>&1 ) || { cat "$log"; echo "apalache parse failed: $f"; exit 1; }
+  else
+    ( cd "$d" && java -cp /opt/veriftools/tla/tla2tools.jar:/opt/veriftools/tla/CommunityModules-deps.jar -DTLA-Library=../lib tla2sany.SANY "$b" >"$log" 2>&1 ) || { cat "$log"; echo "SANY failed: $f"; exit 1; }
+  fi
 done
-rm -f /tmp/sany.$$
 echo "setup ok"
